@@ -25,6 +25,11 @@ def check_diff_T(sc):
                 m.solve(dur, solverType=it, minDtFrac=1e-10)
         except HD.StepCap:
             pass
+        except Exception as e:
+            if "sum up to above 1" not in str(e):
+                raise
+            out.label("left_simplex_rejected")      # documented rejection of a profile that left the simplex (see C04)
+            return out
     finally:
         sys.stdout = so
     Tfn = HD.temperature_fn(sc["T"])
@@ -70,8 +75,11 @@ def _check_homog_T(sc, out):
                 m.solve(dur, solverType=it, minDtFrac=1e-10)
         except HD.StepCap:
             pass
-        except ValueError as e:
-            if "zero-size array" not in str(e):
+        except Exception as e:
+            if "sum up to above 1" in str(e):      # documented rejection of a profile that left the simplex (see C04)
+                out.label("left_simplex_rejected")
+                return out
+            if not (isinstance(e, ValueError) and "zero-size array" in str(e)):
                 raise
             # a uniform closed system has no flux at all: the homogenization model cannot derive a time step from it - outside the admissible domain (see C04)
             out.label("uniform_closed_homogenization_skipped")
